@@ -145,12 +145,33 @@ impl StaticOrDynamic {
         }
     }
 
-    pub fn replace(mut str: String, variables: &[(String, String)]) -> String {
-        for (name, value) in variables {
-            str = str.replace(format!("@{name}").as_str(), value.as_str())
+    /// Variables must be sorted by name length, longest first
+    pub fn replace(str: String, variables: &[(String, String)]) -> String {
+        // One pass over the template: at each '@' the longest known name wins, and a substituted value is never
+        // scanned again (a value containing "@other", or a value joining the text before it into a longer name)
+        let mut result = String::with_capacity(str.len());
+        let mut rest = str.as_str();
+
+        'template: while let Some(at) = rest.find('@') {
+            result.push_str(&rest[..at]);
+            let after = &rest[at + 1..];
+
+            for (name, value) in variables {
+                if after.starts_with(name.as_str()) {
+                    result.push_str(value.as_str());
+                    rest = &after[name.len()..];
+
+                    continue 'template;
+                }
+            }
+
+            result.push('@');
+            rest = after;
         }
 
-        str
+        result.push_str(rest);
+
+        result
     }
 
     pub fn compile(&self) -> bool {
